@@ -39,7 +39,7 @@ ASSUMPTIONS = [
     "PEP 479: a StopIteration escaping next(reader) inside a generator becomes RuntimeError",
     "the input stream is finite; LineReader.__next__ consumes one line per call",
 ]
-FLOORS = {"C10.R1": 3, "C10.R2": 3, "C10.R3": 3, "C10.R4": 4, "C10.R5": 3, "C10.R6": 4}
+FLOORS = {"C10.R7": 1, "C10.R1": 3, "C10.R2": 3, "C10.R3": 3, "C10.R4": 4, "C10.R5": 3, "C10.R6": 4}
 
 
 def run(chk):
@@ -56,6 +56,7 @@ def run(chk):
     r5_termination(chk, [rm, rx])
     r6_own_counts(chk, ym, yx)
     line_reader(chk)
+    r7_suppression_rearmed(chk, rm)
 
 
 # ---------------------------------------------------------------------------
@@ -104,11 +105,43 @@ def _range_loops(fn):
     return out
 
 
+def _record_loops(f):
+    """For loops that append to a list which ends up in the yielded record."""
+    ynames = set()
+    for y in walk_no_nested(f.node):
+        if isinstance(y, ast.Yield) and y.value is not None:
+            ynames |= names_in(y.value)
+    out = []
+    for s in walk_no_nested(f.node):
+        if isinstance(s, ast.For):
+            for b in s.body:
+                for c in walk_no_nested(b):
+                    if isinstance(c, ast.Call) and isinstance(c.func, ast.Attribute) and c.func.attr == "append" and isinstance(c.func.value, ast.Name) and c.func.value.id in ynames:
+                        if s not in out:
+                            out.append(s)
+    return out
+
+
 def r2_count_loops(chk, rm, rx):
     for f in (rm, rx):
-        loops = [l for l in _range_loops(f.node) if any(has_call(b, {".append"}) for b in l.body)]
-        chk.require(loops, f"{f.key}: no count-driven record loop found")
+        loops = _record_loops(f)
+        chk.require(loops, f"{f.key}: no record-filling loop found")
         for l in loops:
+            apps_all = [c for b in l.body for c in walk_no_nested(b) if isinstance(c, ast.Call) and isinstance(c.func, ast.Attribute) and c.func.attr == "append"]
+            lst0 = norm(apps_all[0].func.value)
+            if not (isinstance(l.iter, ast.Call) and call_name(l.iter) == "range" and len(l.iter.args) == 1):
+                # iterator-driven loop: it simply stops when the input runs out - acceptable only with an explicit length check afterwards
+                key = f"{f.key}:count-loop:{lst0}"
+                if "reader" not in names_in(l.iter):
+                    raise AnalysisError(f"{f.key}: record loop over `{norm(l.iter)}` - unknown idiom")
+                checked = False
+                for g in walk_no_nested(f.node):
+                    if isinstance(g, ast.If) and g.lineno > l.lineno and f"len({lst0})" in norm(g.test) and any(isinstance(x, ast.Raise) for b in g.body for x in ast.walk(b)):
+                        checked = True
+                chk.decide(checked, "C10.R2", key, f.where(l), f"iterator-driven loop followed by a length check on {lst0}",
+                           f"`for {norm(l.target)} in {norm(l.iter)}` ends silently when the input runs out and nothing compares len({lst0}) with the declared count: "
+                           "a truncated record is returned with fewer entries than its header declares")
+                continue
             cnt = norm(l.iter.args[0])
             key = f"{f.key}:count-loop:{cnt}"
             problems = []
@@ -129,10 +162,6 @@ def r2_count_loops(chk, rm, rx):
                         problems.append("next_noexcept() inside the record loop turns end of input into None")
             if l.orelse:
                 problems.append("for/else on the record loop")
-            # the list appended to is what the record is built from, and it is reset right before the loop
-            if apps:
-                lst = norm(apps[0].value.func.value)
-                chk.require(lst in ("parsed_atoms", "parsed_bonds", "atoms"), f"{f.key}: record loop appends to `{lst}` - unknown idiom")
             chk.decide(not problems, "C10.R2", key, f.where(l),
                        f"for _ in range({cnt}): one next(reader), one append, no early exit",
                        "; ".join(problems) + f": the list can end up shorter than {cnt} without an exception")
@@ -389,3 +418,35 @@ def line_reader(chk):
                "LineReader.__next__ no longer consumes exactly one line per call")
     ok = "self._extra_lines.append(line)" in norm(pb.node) or "self._extra_lines.appendleft(line)" in norm(pb.node)
     chk.decide(ok, "C10.R5", f"{pb.key}:stores-line", pb.where(), "put_back stores the line for the next read", "put_back does not store the line")
+
+
+def r7_suppression_rearmed(chk, rm):
+    """The flag that turns 'unexpected line' from an error into a silent skip (set for unsupported sections) must be
+    re-decided at every recognised section tag; otherwise it outlives its section and later damaged lines vanish."""
+    guards = []
+    for g in walk_no_nested(rm.node):
+        if isinstance(g, ast.If) and isinstance(g.test, ast.UnaryOp) and isinstance(g.test.op, ast.Not) and isinstance(g.test.operand, ast.Name) \
+                and any(isinstance(x, ast.Raise) for b in g.body for x in ast.walk(b)):
+            guards.append((g, g.test.operand.id))
+        if isinstance(g, ast.If) and isinstance(g.test, ast.Name) and any(isinstance(x, ast.Raise) for b in g.orelse for x in ast.walk(b)):
+            guards.append((g, g.test.id))
+    key = f"{rm.key}:error-suppression-rearmed-at-every-tag"
+    if not guards:
+        chk.ok("C10.R7", key, rm.where(), "no flag suppresses the 'unexpected line' error")
+        return
+    chk.require(len({f for _, f in guards}) == 1, "read_mol2: more than one suppression flag - unknown idiom")
+    flag = guards[0][1]
+    cfg = CFG(rm.node)
+    assigns = {n.id for n in cfg.nodes if n.kind == "stmt" and flag in stored_paths(n.ast)}
+    tags = [n for n in cfg.nodes if n.kind == "case" and n.ast.guard is not None and "RE_TRIPOS" in norm(n.ast.guard)]
+    chk.require(len(tags) == 1, "read_mol2: section-tag case not found")
+    outer = [n.id for n in cfg.nodes if n.kind == "test" and isinstance(n.ast, ast.While) and n.ast in rm.node.body]
+    chk.require(len(outer) == 1, "read_mol2: outer loop header not found")
+    starts = cfg.succs(tags[0].id, {"true"})
+    p = cfg.path(starts, set(outer), avoid=assigns)
+    if p is None:
+        chk.ok("C10.R7", key, rm.where(tags[0].ast.pattern), f"`{flag}` is reassigned on every path through a section tag")
+    else:
+        chk.fail("C10.R7", key, rm.where(tags[0].ast.pattern),
+                 f"a recognised @<TRIPOS> tag can be processed without reassigning `{flag}`: once an unsupported section set it, unexpected lines of every later "
+                 "section and record are skipped silently instead of raising MOL2SyntaxError")
